@@ -62,6 +62,57 @@ fn next_chunk(chunks: &[u8], ci: &mut usize) -> usize {
     if c == 0 { usize::MAX } else { c as usize }
 }
 
+/// A writer that is always ready but accepts only the next chunk size worth of
+/// octets per call (short writes, as a socket under back-pressure does) and
+/// offers vectored writes with the same limit.
+pub struct MemWriter<'a> {
+    pub out: Vec<u8>,
+    chunks: &'a [u8],
+    ci: usize,
+    pub calls: u32,
+}
+
+impl<'a> MemWriter<'a> {
+    pub fn new(chunks: &'a [u8]) -> Self {
+        MemWriter { out: Vec::new(), chunks, ci: 0, calls: 0 }
+    }
+}
+
+impl AsyncWrite for MemWriter<'_> {
+    fn poll_write(mut self: Pin<&mut Self>, _cx: &mut Context<'_>, buf: &[u8]) -> Poll<io::Result<usize>> {
+        let this = &mut *self;
+        this.calls += 1;
+        let n = next_chunk(this.chunks, &mut this.ci).min(buf.len());
+        this.out.extend_from_slice(&buf[..n]);
+        Poll::Ready(Ok(n))
+    }
+    fn poll_write_vectored(mut self: Pin<&mut Self>, _cx: &mut Context<'_>, bufs: &[io::IoSlice<'_>]) -> Poll<io::Result<usize>> {
+        let this = &mut *self;
+        this.calls += 1;
+        let mut room = next_chunk(this.chunks, &mut this.ci);
+        let mut n = 0;
+        for b in bufs {
+            let k = room.min(b.len());
+            this.out.extend_from_slice(&b[..k]);
+            n += k;
+            room -= k;
+            if room == 0 {
+                break;
+            }
+        }
+        Poll::Ready(Ok(n))
+    }
+    fn is_write_vectored(&self) -> bool {
+        true
+    }
+    fn poll_flush(self: Pin<&mut Self>, _cx: &mut Context<'_>) -> Poll<io::Result<()>> {
+        Poll::Ready(Ok(()))
+    }
+    fn poll_shutdown(self: Pin<&mut Self>, _cx: &mut Context<'_>) -> Poll<io::Result<()>> {
+        Poll::Ready(Ok(()))
+    }
+}
+
 impl AsyncRead for MemReader<'_> {
     fn poll_read(mut self: Pin<&mut Self>, _cx: &mut Context<'_>, buf: &mut ReadBuf<'_>) -> Poll<io::Result<()>> {
         let me = &mut *self;
